@@ -178,6 +178,14 @@ def sym_str(x=""):
         if isinstance(x, p.SYM_TYPES):
             return builtins.str(x)
     t = type(x)
+    if isinstance(x, BaseException) and t.__module__ == "builtins" and px() is not None:
+        # str(exc) renders its arguments at C level, which cannot return proxies
+        if isinstance(x, KeyError) and len(x.args) == 1:
+            return sym_repr(x.args[0])
+        if len(x.args) == 1:
+            return sym_str(x.args[0])
+        if len(x.args) == 0:
+            return ""
     if t.__module__ != "builtins" and px() is not None:
         # user classes: call __str__/__repr__ directly so that a proxy result is accepted
         if t.__str__ is not object.__str__ and t.__str__ is not BaseException.__str__:
